@@ -21,6 +21,8 @@ harnesses! {
     h_c10_prec3 => precedence3(),
     h_c10_mixed => mixed_catalogue(),
     h_c10_cache => cache_vs_fresh(),
+    h_c10_tree => tree_shape(),
+    h_c10_cache2 => cache_init_assign(),
     h_c10_assign => assignment(),
     h_c11_alias => alias_no_deadlock(),
     h_c11_lex2 => lexer_terminates(2),
@@ -92,6 +94,50 @@ fn precedence() {
     vnd_cover(1010);
     vnd_check(1010, r.is_ok() && result_int(&r) == expect);
     vnd_obs(1, result_int(&r).unwrap_or(7) as u64);
+}
+
+const BINOPS: [&str; 13] = ["+", "-", "*", "/", "%", "<", "<=", ">", ">=", "==", "!=", "&", "|"];
+fn prio_of(op: usize) -> u32 { match op { 2 | 3 | 4 | 11 => 5, 0 | 1 | 12 => 6, 5 | 6 | 7 | 8 => 9, _ => 10 } }
+
+fn op_code(o: &rufsm::expression_engine::lexer::Operator) -> usize {
+    use rufsm::expression_engine::lexer::Operator::*;
+    match o { Plus => 0, Minus => 1, Multiply => 2, Divide => 3, Modulus => 4, Less => 5, LessEqual => 6, Greater => 7, GreaterEqual => 8, Equal => 9, NotEqual => 10, And => 11, Or => 12, _ => 99 }
+}
+
+/// grouping of "a op1 b op2 c" for EVERY pair of binary operators, read off the parsed tree: the documented priority table decides,
+/// equal priority groups left to right
+fn tree_shape() {
+    use rufsm::expression_engine::expressions::{get_expression_as, ExpressionOperator, ExpressionVariable};
+    use std::ops::Deref;
+    let o1 = vnd_conc(vnd_range(0, 12, 1), 12) as usize;
+    let o2 = vnd_conc(vnd_range(0, 12, 2), 12) as usize;
+    let text = format!("a {} b {} c", BINOPS[o1], BINOPS[o2]);
+    let r = ExpressionParser::parse(text);
+    vnd_cover(1060);
+    match r {
+        Err(_) => vnd_check(1060, false),
+        Ok(e) => {
+            let right_first = prio_of(o2) < prio_of(o1);
+            let ok = match get_expression_as::<ExpressionOperator>(e.deref()) {
+                None => false,
+                Some(top) => {
+                    if right_first {
+                        // a op1 (b op2 c)
+                        op_code(&top.operator) == o1
+                            && get_expression_as::<ExpressionVariable>(top.left.deref()).map(|v| v.name == "a").unwrap_or(false)
+                            && get_expression_as::<ExpressionOperator>(top.right.deref()).map(|x| op_code(&x.operator) == o2).unwrap_or(false)
+                    } else {
+                        // (a op1 b) op2 c
+                        op_code(&top.operator) == o2
+                            && get_expression_as::<ExpressionVariable>(top.right.deref()).map(|v| v.name == "c").unwrap_or(false)
+                            && get_expression_as::<ExpressionOperator>(top.left.deref()).map(|x| op_code(&x.operator) == o1).unwrap_or(false)
+                    }
+                }
+            };
+            vnd_check(1060, ok);
+        }
+    }
+    vnd_obs(1, (o1 * 13 + o2) as u64);
 }
 
 /// three operators, concrete small operands chosen by the solver from a range: "a op1 b op2 c op3 d"
@@ -185,6 +231,32 @@ fn cache_vs_fresh() {
     let other = dm.execute(&Data::Source(SourceCode::new("b", 78)));
     vnd_check(1031, result_int(&other) == Some(3));
     vnd_obs(1, f.unwrap_or(0) as u64);
+}
+
+/// a cached expression evaluated a second time on a changed store behaves like a fresh compilation (kinds of nodes survive get_copy)
+fn cache_init_assign() {
+    let k = vnd_conc(vnd_range(0, 4, 1), 4);
+    let text = match k { 0 => "m[key] ?= 1", 1 => "n ?= b", 2 => "!(b == 3) | (b < 4)", 3 => "[b, 1][0] + {'x': b}.x", _ => "b = b + 1" };
+    let run = |cached: bool| -> (bool, bool, String) {
+        let g = create_global_data_arc();
+        { let mut gd = g.lock().unwrap();
+          gd.data.set_undefined("m".to_string(), Data::Map(std::collections::HashMap::new()));
+          gd.data.set_undefined("key".to_string(), Data::String("a".to_string()));
+          gd.data.set_undefined("b".to_string(), Data::Integer(3)); }
+        let mut dm = RFsmExpressionDatamodel::new(g.clone());
+        let id = if cached { 77 } else { 0 };
+        let r1 = dm.execute(&Data::Source(SourceCode::new(text, id)));
+        // the store changes between the two evaluations
+        { let mut gd = g.lock().unwrap(); gd.data.set_undefined("key".to_string(), Data::String("z".to_string())); gd.data.map.remove("n"); }
+        let r2 = dm.execute(&Data::Source(SourceCode::new(text, id)));
+        let s = match &r2 { Ok(v) => v.lock().unwrap().to_string(), Err(_) => "<err>".to_string() };
+        (r1.is_ok(), r2.is_ok(), s)
+    };
+    let fresh = run(false);
+    let cached = run(true);
+    vnd_cover(1035);
+    vnd_check(1035, fresh.0 == cached.0 && fresh.1 == cached.1 && fresh.2 == cached.2);
+    vnd_obs(1, if cached.1 { 1 } else { 0 });
 }
 
 /// '=' assigns to declared variables only, '?=' also creates; the stored value is the right-hand value
